@@ -580,9 +580,9 @@ func init() {
 		},
 		Spaces: func(tier string) []*core.Space {
 			if tier == "thorough" {
-				return []*core.Space{c06TagLayouts(), c06Space("depth<=2", 2, false), c06Space("depth3-reduced", 3, true)}
+				return []*core.Space{c06StructTagSequences(), c06TagLayouts(), c06Space("depth<=2", 2, false), c06Space("depth3-reduced", 3, true)}
 			}
-			return []*core.Space{c06TagLayouts(), c06Space("depth<=2", 2, false)}
+			return []*core.Space{c06StructTagSequences(), c06TagLayouts(), c06Space("depth<=2", 2, false)}
 		},
 	})
 }
@@ -595,3 +595,82 @@ func firstLine(s string) string {
 	}
 	return s
 }
+
+// the StructTag option: the same struct types round-tripped under different tag names in one process (names,
+// inline and ignore flags are taken from the tag named by the option of *this* call)
+type c06TagSub struct {
+	P int    `config:"p" alt:"q"`
+	S string `config:"s,ignore" alt:"s"`
+}
+
+type c06TagT struct {
+	Host   string            `config:"host" alt:"server"`
+	Port   int               `config:"port" alt:"host"`
+	Labels map[string]int    `config:"labels" alt:"tags"`
+	Hidden string            `config:",ignore" alt:"hidden"`
+	Shown  string            `config:"shown" alt:",ignore"`
+	Sub    c06TagSub         `config:"sub" alt:",inline"`
+	Ptr    *c06TagSub        `config:"ptr" alt:"ptr"`
+	List   []c06TagSub       `config:"list" alt:"items"`
+}
+
+func c06StructTagSequences() *core.Space {
+	seqs := [][]string{{"config"}, {"alt"}, {"config", "alt"}, {"alt", "config"}, {"config", "alt", "config"}, {"alt", "config", "alt"}, {"", "alt", ""}}
+	return &core.Space{
+		Name: "struct-tag-option-sequences",
+		Size: len(seqs),
+		Text: func(i int) string {
+			return fmt.Sprintf("one struct type (names, inline and ignore flags differ between the tags) round-tripped under StructTag %q in turn", seqs[i])
+		},
+		Exec: func(i int) core.Result {
+			var res core.Result
+			pi := core.Guard(func() {
+				for step, tag := range seqs[i] {
+					in := c06TagT{Host: "h", Port: 80, Labels: map[string]int{"x": 1}, Hidden: "hid", Shown: "sh",
+						Sub: c06TagSub{P: 3, S: "s1"}, Ptr: &c06TagSub{P: 4, S: "s2"}, List: []c06TagSub{{5, "s3"}}}
+					var opts []ucfg.Option
+					if tag != "" {
+						opts = append(opts, ucfg.StructTag(tag))
+					}
+					c := ucfg.New()
+					if err := c.Merge(in, opts...); err != nil {
+						res = core.Fail("roundtrip", "MERGE-FAILS under a StructTag sequence", fmt.Sprintf("step %d (%q): %v", step, tag, firstLine(err.Error())))
+						return
+					}
+					var out c06TagT
+					if err := c.Unpack(&out, opts...); err != nil {
+						res = core.Fail("roundtrip", "UNPACK-FAILS under a StructTag sequence", fmt.Sprintf("step %d (%q): %v", step, tag, firstLine(err.Error())))
+						return
+					}
+					// what the tag of this call ignores does not travel
+					want := in
+					wp := *in.Ptr
+					want.Ptr = &wp
+					want.List = []c06TagSub{in.List[0]}
+					if tag == "alt" {
+						want.Shown = ""
+					} else {
+						want.Hidden = ""
+						want.Sub.S, want.Ptr.S, want.List[0].S = "", "", ""
+					}
+					got := fmt.Sprintf("%+v ptr=%+v", out, out.Ptr)
+					exp := fmt.Sprintf("%+v ptr=%+v", want, want.Ptr)
+					strip := func(s string) string { // pointer addresses
+						return regexpPtr.ReplaceAllString(s, "Ptr:<p>")
+					}
+					if strip(got) != strip(exp) {
+						res = core.Fail("roundtrip", "DIFFERS under a StructTag sequence", fmt.Sprintf("step %d (%q): got %s, want %s", step, tag, strip(got), strip(exp)))
+						return
+					}
+				}
+				res = core.Result{Nontrivial: len(seqs[i]) > 1, Outcome: "ok"}
+			})
+			if pi != nil {
+				return apiPanic("c06", pi)
+			}
+			return res
+		},
+	}
+}
+
+var regexpPtr = regexp.MustCompile(`Ptr:0x[0-9a-f]+`)
